@@ -200,3 +200,29 @@ Theorem T19_7_keys_items_fresh :
   forall used value target n, keys_items_decision used value target = Some n -> ~ In n used.
 Proof. exact keys_items_fresh. Qed.
 Print Assumptions T19_7_keys_items_fresh.
+
+(* T19.8 (round 5): the list of mentions is an input of the decision; T19.5/T19.6 speak about the program
+   under the named premise `mentions_complete` (every place where an identifier is written is in the list) *)
+Theorem T19_8_identifier_bijection_on_all_places :
+  forall pres m places p1 p2,
+    wf_modl m = true -> mentions_complete places (mentions m) -> In p1 places -> In p2 places ->
+    (mention_sub (align pres m) p1 = mention_sub (align pres m) p2 <-> m_name p1 = m_name p2).
+Proof. exact align_alpha_complete. Qed.
+Print Assumptions T19_8_identifier_bijection_on_all_places.
+
+(* the premise cannot be dropped: one place missing from the list (the star capture of `case [x, *name]`)
+   and two different variables get the same identifier ... *)
+Theorem T19_8_missing_mention_capture_refuted :
+  exists ms cs missing p,
+    wf_decision ms cs /\ In p ms /\ ~ In missing ms /\ m_name p <> m_name missing
+    /\ mention_sub (decide [] [] ms cs []) p = mention_sub (decide [] [] ms cs []) missing.
+Proof. exact mentions_incomplete_capture_refuted. Qed.
+Print Assumptions T19_8_missing_mention_capture_refuted.
+
+(* ... or one variable is left with two identifiers *)
+Theorem T19_8_missing_mention_partial_rename_refuted :
+  exists ms cs missing p,
+    wf_decision ms cs /\ In p ms /\ ~ In missing ms /\ m_name p = m_name missing
+    /\ mention_sub (decide [] [] ms cs []) p <> mention_sub (decide [] [] ms cs []) missing.
+Proof. exact mentions_incomplete_partial_rename_refuted. Qed.
+Print Assumptions T19_8_missing_mention_partial_rename_refuted.
